@@ -1,6 +1,6 @@
 (* C01 — SimpleMRS serialisation is lossless (token level). *)
 From Coq Require Import List NArith ZArith Bool.
-From PyD Require Import Base.Str Model.Mrs Model.Iso Model.SimpleMrs Proofs.SimpleMrsP Model.MrsJson Proofs.MrsJsonP.
+From PyD Require Import Base.Str Model.Mrs Model.Iso Model.SimpleMrs Proofs.SimpleMrsP Proofs.SimpleMrsStable Model.MrsJson Proofs.MrsJsonP.
 Import ListNotations.
 
 (* the decoder's unescaping inverts the encoder's escaping of constants,
@@ -75,3 +75,25 @@ Theorem C01_json_from_to_dict : forall p l m d,
   PyD.Model.MrsJson.from_dict d = Some (PyD.Proofs.MrsJsonP.proj_json p l m).
 Proof. exact PyD.Proofs.MrsJsonP.from_to_dict. Qed.
 Print Assumptions C01_json_from_to_dict.
+
+(* stability: encoding the decoded structure again reproduces the token
+   stream exactly (arguments already in role order, properties already in
+   priority order, nothing is emitted twice) *)
+Theorem C01_reencode_stable : forall cls l m toks vpl rest,
+  mrs_wf m -> enc_mrs_full cls true l m = Some (toks, vpl) ->
+  (forall v, getp v (xm_vars m) <> [] -> In v (mentioned m)) ->
+  exists m', dec_mrs (toks ++ rest) = Some (m', rest) /\ enc_mrs cls true l m' = Some toks.
+Proof. exact reencode_stable. Qed.
+Print Assumptions C01_reencode_stable.
+
+Theorem C01_reencode_stable_properties_suppressed : forall cls l m toks vpl rest,
+  mrs_wf m -> enc_mrs_full cls false l m = Some (toks, vpl) ->
+  exists m', dec_mrs (toks ++ rest) = Some (m', rest) /\ enc_mrs cls false l m' = Some toks.
+Proof. exact reencode_stable_noprops. Qed.
+Print Assumptions C01_reencode_stable_properties_suppressed.
+
+(* the encoder's sorts are idempotent *)
+Theorem C01_sorts_idempotent : forall ps args,
+  sort_props (sort_props ps) = sort_props ps /\ sort_roles (sort_roles args) = sort_roles args.
+Proof. exact sorts_idempotent. Qed.
+Print Assumptions C01_sorts_idempotent.
